@@ -22,7 +22,7 @@ from mc.report import Report
 
 LEVEL = "model_checking"
 RULE = ("BFS over action sequences {construct a context manager now and enter it later (once per history), enter one of 4 contexts (auto_checkpoint(p1,every=1), auto_checkpoint(p2,every=2,"
-        "save_config=False), enable_pool(close_pool=True), enable_pool(close_pool=False, parallelize_prior=True)), leave the "
+        "save_config=False), enable_pool(close_pool=True), enable_pool(close_pool=False, parallelize_prior=True), enable_pool(one pool object shared by all such contexts, close_pool=False)), leave the "
         "innermost context normally, sample inside the body (real importance run), raise Exception-subclass, raise "
         "KeyboardInterrupt} with nesting depth <=3 (quick) / 4 (thorough) and <=5/7 actions; abstract state = (context stack, "
         "likelihood/prior wrapping depth, checkpoint-defaults content or ABSENT, per-pool close/join counters, sampled flag, "
@@ -33,7 +33,7 @@ ASSUMPTIONS = [
     "faults are raised between operations of the body (not inside __enter__/__exit__ themselves)",
 ]
 
-CONTEXTS = ["A1", "A2", "A3", "P1", "P2"]
+CONTEXTS = ["A1", "A2", "A3", "P1", "P2", "P3"]
 ABSENT = "<absent>"
 
 
@@ -124,6 +124,11 @@ class World:
             cm = self.a.auto_checkpoint(self.path("p2"), every=2, save_config=False)
         elif c == "A3":  # the same file as A1 with other options
             cm = self.a.auto_checkpoint(self.path("p1"), every=3, save_config=False)
+        elif c == "P3":  # one pool object shared by every P3 context, always with the same options
+            if getattr(self, "shared", None) is None:
+                self.shared = FakePool("shared")
+                self.pools.append((self.shared, c))
+            return self.a.enable_pool(self.shared, close_pool=False), self.shared
         elif c == "P1":
             pool = FakePool(f"pool{len(self.pools)}")
             cm = self.a.enable_pool(pool, close_pool=True)
@@ -164,7 +169,7 @@ class World:
             want_every = {"A1": 1, "A2": 2, "A3": 3}[top["ctx"]]
             if d is ABSENT or d.get("every") != want_every or d.get("save_config") != (top["ctx"] == "A1"):
                 self.problems.append(("override-not-active/auto_checkpoint", d if d is ABSENT else dict(d)))
-        p_ctx = [e for e in self.entered if e["ctx"] in ("P1", "P2")]
+        p_ctx = [e for e in self.entered if e["ctx"] in ("P1", "P2", "P3")]
         if p_ctx:
             top = p_ctx[-1]
             lk = self.a.log_likelihood
@@ -184,7 +189,7 @@ class World:
                 self.problems.append((f"pool-not-closed-once/{where}", (pool.closed, pool.joined)))
             if e["ctx"] == "P1" and pool.order[:2] != ["close", "join"]:
                 self.problems.append((f"pool-close-join-order/{where}", pool.order))
-            if e["ctx"] == "P2" and (pool.closed or pool.joined):
+            if e["ctx"] in ("P2", "P3") and (pool.closed or pool.joined):
                 self.problems.append((f"pool-closed-although-not-asked/{where}", (pool.closed, pool.joined)))
 
     def exit_one(self):
@@ -217,7 +222,7 @@ class World:
             if pool is not None:
                 if e["ctx"] == "P1" and (pool.closed, pool.joined) != (1, 1):
                     self.problems.append((f"pool-not-closed-once/unwind-by-{kind}", (pool.closed, pool.joined)))
-                if e["ctx"] == "P2" and (pool.closed or pool.joined):
+                if e["ctx"] in ("P2", "P3") and (pool.closed or pool.joined):
                     self.problems.append((f"pool-closed-although-not-asked/unwind-by-{kind}", (pool.closed, pool.joined)))
         self.same(self.pre, f"unwind-by-{kind}")
         self.unwound = True
